@@ -38,13 +38,15 @@ TECHNIQUE = ("bounded-exhaustive enumeration of annotation expression trees (all
 RULE = ("annotations = all expression trees with <= 1 constructor level (DESIGN depth 2: 13 leaves int,bool,float,str,bytes,"
         "NoneType,Any,bare list,bare dict,free/bound/constrained TypeVar + NoAnnotation at top level; constructors list,set,"
         "tuple[T],tuple[T,U],dict,Union,Optional,Annotated[T,marker],Array); ALL ordered pairs (A,B) are evaluated with "
-        "is_type_compatible and compared with the reference verdict. thorough adds depth 3 (two constructor levels), capped to the "
-        "reduced leaves {int,bool,str,Any} with unordered Union members: every such depth-3 annotation (all constructors) against "
+        "is_type_compatible and compared with the reference verdict; plus all ordered pairs over {depth<=2 over reduced leaves "
+        "int,bool,str,Any} u {list/Optional/Annotated/Array wrapped around such a depth-2 annotation}. thorough adds depth 3 (two constructor levels), capped to the "
+        "reduced leaves {int,bool,str,Any} with unordered Union members: every such depth-3 annotation (all constructors but set) against "
         "every depth-2 annotation in both directions, and all ordered depth-3 x depth-3 pairs over the core constructors "
         "{list,Optional,Annotated,Array,tuple[T,U],Union}. Separate classes: "
         "Annotated[T,'m'] (string metadata), the literal None, the literal triples of tests/test_typing.py. Pipelines: "
         "pair/chain/fan-in/fan-out wirings of a sub-alphabet, edges direct / element-wise map / reduction (whole, 'y[i, :]', "
-        "'y[:]'), validate_type_annotations in {True,False}, built by Pipeline([...]) and by add(). A pair is distinct by "
+        "'y[:]'), validate_type_annotations in {True,False}, built by Pipeline([...]) and by add() (2 nodes: 25 annotations, all "
+        "ordered pairs; 3 nodes: 6 annotations per slot, thorough 7). A pair is distinct by "
         "construction (distinct trees) and non-trivial iff the reference verdict is must/must-not and was reached by "
         "descending into union members, generic arguments, TypeVar bounds or a subclass decision (not by identity, Any, "
         "NoAnnotation or a top-level class mismatch); a pipeline case is non-trivial iff some edge is constrained and "
@@ -245,7 +247,7 @@ def rel(a, b):  # noqa: C901, PLR0911, PLR0912
     oa, ob = a[0], b[0]
     o = _origin_rel(oa, ob)
     if o == "disjoint":
-        return NOT, ("origin-mismatch" if (oa in GENERIC or ob in GENERIC) else "disjoint-classes"), ()
+        return NOT, ("origin-mismatch" if (oa in GENERIC or ob in GENERIC) else "class-mismatch"), ()
     if o == "tower":
         return UNC, "numeric-tower", ()
     aa, ba = a[1:], b[1:]
@@ -262,7 +264,7 @@ def rel(a, b):  # noqa: C901, PLR0911, PLR0912
     return v, ("argument-rejected" if v == NOT else "covariant-arguments"), kids
 
 
-TRIVIAL_REASONS = {"no-annotation", "target-any", "reflexive", "any-source", "disjoint-classes", "origin-mismatch",
+TRIVIAL_REASONS = {"no-annotation", "target-any", "reflexive", "any-source", "class-mismatch", "origin-mismatch",
                    "typevar-free", "typevar-source", "numeric-tower", "bare-to-parametrised"}
 
 
@@ -400,11 +402,14 @@ def grow(args, need=None, sym_union=False, unary=UNARY, binary=BINARY):
 def alphabet(name):
     if name == "d2":  # DESIGN depth 2: leaves + one constructor level (NoAnnotation only at top level)
         return tuple([NOANN, *L_FULL, *grow(L_FULL)])
-    if name == "d2r":  # depth <= 2 over the reduced leaves
-        return tuple([*L_RED, *grow(L_RED, sym_union=True)])
+    if name == "d2r":  # depth <= 2 over the reduced leaves (set[...] left out: no code path distinguishes it from list[...])
+        return tuple([*L_RED, *grow(L_RED, sym_union=True, unary=[c for c in UNARY if c != "set"])])
+    if name == "w3":  # d2r plus the depth-3 annotations that wrap a depth-2 one in a core unary constructor
+        lower = list(alphabet("d2r"))
+        return tuple([*lower, *grow(lower, need=lower[len(L_RED):], unary=UNARY_CORE, binary=[])])
     if name == "d3r":  # depth exactly 3 over the reduced leaves
         lower = list(alphabet("d2r"))
-        return tuple(grow(lower, need=lower[len(L_RED):], sym_union=True))
+        return tuple(grow(lower, need=lower[len(L_RED):], sym_union=True, unary=[c for c in UNARY if c != "set"]))
     if name == "d3c":  # depth exactly 3, reduced leaves, core constructors only (both levels)
         lower = [*L_RED, *grow(L_RED, sym_union=True, unary=UNARY_CORE, binary=BINARY_CORE)]
         return tuple(grow(lower, need=lower[len(L_RED):], sym_union=True, unary=UNARY_CORE, binary=BINARY_CORE))
@@ -498,8 +503,9 @@ def selfcheck():
 P2 = [NOANN, ("int",), ("bool",), ("str",), ("float",), NONE, ANY, ("list", ("int",)), ("list", ("bool",)), ("list",),
       ("tuple", ("int",)), ("tuple", ("int",), ("str",)), ("dict", ("str",), ("int",)), ("bor", ("int",), ("str",)),
       ("opt", ("int",)), ("ann", ("int",)), ("array", ("int",)), ("array", ("bool",)), ("array", ("union", ("int",), ("str",))),
-      ("array", ANY), ("ann", ("array", ("int",))), TV_T, TV_U, TV_S]
-P3 = [NOANN, ("int",), ("bool",), ("str",), ANY, ("list", ("int",)), ("opt", ("int",)), ("array", ("int",))]
+      ("array", ANY), ("ann", ("array", ("int",))), ("ann", ("opt", ("int",))), TV_T, TV_U, TV_S]
+P3 = {"p3q": [NOANN, ("int",), ("bool",), ("str",), ("opt", ("int",)), ("array", ("int",))],
+      "p3t": [NOANN, ("int",), ("bool",), ("str",), ANY, ("opt", ("int",)), ("array", ("int",))]}
 PSTR = [("annstr", ("int",)), ("list", ("annstr", ("int",))), ("annstr", ("array", ("int",)))]
 PNONE = [(("list", ("NoneLit",)), ("list", ("opt", ("int",)))), (("list", ("NoneLit",)), ("list", NONE)), (("list", ("NoneLit",)), ("list", ("int",))),
          (("dict", ("str",), ("NoneLit",)), ("dict", ("str",), ("opt", ("int",)))), (("list", NONE), ("list", ("NoneLit",))),
@@ -610,9 +616,10 @@ def run_pipe(case):  # noqa: C901, PLR0912, PLR0915
         r = impl(obj(eff), obj(anns[d]))
         wrong = isinstance(r, Exception) or r != (v == MUST)
         why = blame(eff, anns[d])[0] if wrong else reason
-        sig = {"kind": kind, "level": "pipeline", "reason": why, "relation_wrong": bool(wrong), **extra}
-        if not wrong:  # the relation is right on this edge: the defect is in how the pipeline applies it
-            sig["edge"] = k
+        if wrong:  # is_type_compatible itself is wrong on this edge: class of the innermost disagreeing sub-pair
+            sig = {"kind": kind, "level": "pipeline", "relation_wrong": True, "reason": why, **extra}
+        else:  # the relation is right on this edge: the defect is in how the pipeline applies it
+            sig = {"kind": kind, "level": "pipeline", "relation_wrong": False, "edge": k, **extra}
         return (sig,
                 f"edge {show(eff)} -> {show(anns[d])} ({k}) is {v} [{reason}]; is_type_compatible on that edge = {r!r}")
 
@@ -676,6 +683,7 @@ def plan(tier, seed):
     selfcheck()
     units = [("test-triples", ("triples",))]
     units += _chunks("pairs-depth2", "pairs", "d2", "d2", 96)
+    units += _chunks("pairs-depth3-unary-wrappers", "pairs", "w3", "w3", 32)
     units += [("string-metadata+none-literal", ("pairs", "strmeta", "probe", 0, 1)), ("string-metadata+none-literal", ("pairs", "probe", "strmeta", 0, 1)),
               ("string-metadata+none-literal", ("pairs", "strmeta", "strmeta", 0, 1)),
               ("string-metadata+none-literal", ("pairs", "nonelit", "probe", 0, 1)), ("string-metadata+none-literal", ("pairs", "probe", "nonelit", 0, 1)),
@@ -686,9 +694,9 @@ def plan(tier, seed):
     units.append(("pipelines-2-nodes", ("pipe2str",)))
     for topo in ("chain", "fanin", "fanout"):
         for w in WIRINGS[topo]:
-            n = 8 if topo != "fanout" else 2
+            n = (8 if tier == "thorough" else 4) if topo != "fanout" else 1
             for c in range(n):
-                units.append(("pipelines-3-nodes", ("pipe3", topo, w, c, n)))
+                units.append(("pipelines-3-nodes", ("pipe3", topo, w, c, n, "p3t" if tier == "thorough" else "p3q")))
     if tier == "thorough":
         units += _chunks("pairs-depth3-x-depth2", "pairs3", "d3r", "d2", 128)
         units += _chunks("pairs-depth3-x-depth2", "pairs3", "d2", "d3r", 64)
@@ -775,17 +783,17 @@ def run_unit(unit):  # noqa: C901, PLR0912, PLR0915
         if kind == "pipe2" and c == 0:
             acc.sample({"op": "pipe", "topo": "pair", "wiring": w, "anns": [lst(P2[1]), lst(P2[3])], "validate": True, "mode": "ctor"})
     elif kind == "pipe3":
-        _, topo, w, c, n = unit
+        _, topo, w, c, n, pname = unit
         k = NSLOTS[topo]
         idx = 0
-        for combo in itertools.product(P3, repeat=k):
+        for combo in itertools.product(P3[pname], repeat=k):
             idx += 1
             if idx % n != c:
                 continue
             for validate in (True, False):
                 _do_pipe(acc, {"op": "pipe", "topo": topo, "wiring": w, "anns": [lst(a) for a in combo], "validate": validate, "mode": "ctor"})
         if c == 0:
-            acc.sample({"op": "pipe", "topo": topo, "wiring": w, "anns": [lst(P3[1])] * k, "validate": True, "mode": "ctor"})
+            acc.sample({"op": "pipe", "topo": topo, "wiring": w, "anns": [lst(P3[pname][1])] * k, "validate": True, "mode": "ctor"})
     else:
         raise ValueError(kind)
     return acc
